@@ -3,8 +3,9 @@
  *
  * cases.txt is the TLC output of spec/Kernels.tla (operands AND exact expected results, integers) rewritten by the
  * check as plain text:   <family> <seed> <r> <k> <c> <nin> <nout>   followed by nin+nout lines  <len> v1 .. vlen
- * Every case of the family that feeds <function> is run with the operands scaled by 2^e, e in {-20, 0, 20}
- * (exact in double), and the library's result is compared with the TLC value scaled accordingly:
+ * Every case of the family that feeds <function> is run with the operands scaled by 2^e, e in {-19, 0, 17}
+ * (exact in double; with mantissas 1..5 the values span 1.9e-6 .. 6.6e5, inside the 1e-6 .. 1e6 of the quantifier), and the
+ * library's result is compared with the TLC value scaled accordingly:
  *   integer-valued results exactly; quotients (averages, variances, covariance) against num*2^(e*deg)/den
  *   within the stated relative tolerance; norms / SDEV through their squares.
  * Output, one JSON object per line:
@@ -24,16 +25,21 @@
 typedef struct { int len; long *v; } arr;
 typedef struct { char fam[32]; int sd, r, k, c, nin, nout; arr in[16], out[16]; } kcase;
 
-static const int EXPS[3] = { -20, 0, 20 };
+static const int EXPS[3] = { -19, 0, 17 };
 #define MIX 99                       /* fourth pass: column j (or operand) in its own unit 2^EXPS[j % 3] */
+#define DEC 98                       /* K5 pass: a unit that is not representable in binary (0.1, 1/3, 1e-3): every operand carries a rounding error */
+static double DECU = 0.1;            /* the unit of the current case's DEC pass */
+static double dec_abs = 0.0;         /* absolute tolerance of the current comparison in the DEC pass: (terms + 4) * eps * sum of |terms| */
+static double sc(double v, int e){ return e == DEC ? v * DECU : ldexp(v, e); }                                   /* operand value */
+static double scd(double v, int e, int deg){ return e == DEC ? (deg == 2 ? v * DECU * DECU : (deg == 1 ? v * DECU : v)) : ldexp(v, e * deg); }   /* expected value of degree deg */
 static int ecol(int e, int j){ return e == MIX ? EXPS[j % 3] : e; }
 #define STALE 7.25                   /* what an already sized output holds before the second call */
 #define EPS DBL_EPSILON
 
+static int cur_exp;
 /* ---- current case, for crash reports ---- */
 static const char *cur_fn = "";
 static kcase *cur = NULL;
-static int cur_exp = 0;
 static void crash_line(void){
   if(vrt_out && cur){
     fprintf(vrt_out, "{\"e\":\"Crash\",\"fn\":\"%s\",\"sd\":%d,\"r\":%d,\"k\":%d,\"c\":%d,\"exp\":%d}\n", cur_fn, cur->sd, cur->r, cur->k, cur->c, cur_exp);
@@ -52,13 +58,15 @@ void __sanitizer_set_death_callback(void (*cb)(void));
 static int stale_pass = 0;           /* 1 while a routine runs into an already sized, non-zero output */
 static struct { int bad, exp, i, j, scales, stale; double got, want; const char *what; } mm;   /* scales: bit 0/1/2/3 = failed at 2^-20 / 1 / 2^20 / mixed units */
 static void miss(int e, int i, int j, double got, double want, const char *what){
-  mm.scales |= e == MIX ? 8 : (e < 0 ? 1 : (e == 0 ? 2 : 4));
+  mm.scales |= e == MIX ? 8 : (e == DEC ? 16 : (e < 0 ? 1 : (e == 0 ? 2 : 4)));
   if(mm.bad) return;
   mm.bad = 1; mm.exp = e; mm.i = i; mm.j = j; mm.got = got; mm.want = want; mm.what = what; mm.stale = stale_pass;
 }
 /* got == want, or within rel * max(|want|, floor) when rel > 0 */
+static int cur_exp = 0;
 static int near_(double got, double want, double rel, double floor_){
   if(got == want) return 1;
+  if(cur_exp == DEC && vfinite(got) && fabs(got - want) <= dec_abs + rel * fabs(want)) return 1;
   if(!vfinite(got) || rel == 0.0) return 0;
   double s = fabs(want) > floor_ ? fabs(want) : floor_;
   return fabs(got - want) <= rel * s;
@@ -70,13 +78,13 @@ static int near_(double got, double want, double rel, double floor_){
 static matrix *mat_of(arr *a, int rows, int cols, int e){
   matrix *m; NewMatrix(&m, rows, cols);
   if(a->len != rows * cols){ fprintf(stderr, "case operand has %d cells, expected %dx%d\n", a->len, rows, cols); exit(2); }
-  for(int i = 0; i < rows; i++) for(int j = 0; j < cols; j++) m->data[i][j] = ldexp((double)a->v[i * cols + j], e);
+  for(int i = 0; i < rows; i++) for(int j = 0; j < cols; j++) m->data[i][j] = sc((double)a->v[i * cols + j], e);
   return m;
 }
 static dvector *vec_of(arr *a, int n, int e){
   dvector *v; NewDVector(&v, n);
   if(a->len != n){ fprintf(stderr, "case operand has %d cells, expected %d\n", a->len, n); exit(2); }
-  for(int i = 0; i < n; i++) v->data[i] = ldexp((double)a->v[i], e);
+  for(int i = 0; i < n; i++) v->data[i] = sc((double)a->v[i], e);
   return v;
 }
 /* column j in unit 2^ecol(e, j) */
@@ -97,15 +105,39 @@ static void need(arr *a, int n){ if(a->len != n){ fprintf(stderr, "expected-resu
 static void cmp_mat(matrix *m, arr *want, int rows, int cols, int e, int deg, const char *what){
   need(want, rows * cols);
   if((int)m->row != rows || (int)m->col != cols){ miss(e, (int)m->row, (int)m->col, (double)m->row, (double)rows, "result shape"); return; }
-  for(int i = 0; i < rows; i++) for(int j = 0; j < cols; j++) CHK(e, i, j, m->data[i][j], ldexp((double)want->v[i * cols + j], e * deg), 0.0, 0.0, what);
+  for(int i = 0; i < rows; i++) for(int j = 0; j < cols; j++) CHK(e, i, j, m->data[i][j], scd((double)want->v[i * cols + j], e, deg), 0.0, 0.0, what);
 }
 static void cmp_vec(dvector *v, arr *want, int n, int e, int deg, const char *what){
   need(want, n);
   if((int)v->size != n){ miss(e, (int)v->size, 0, (double)v->size, (double)n, "result size"); return; }
-  for(int i = 0; i < n; i++) CHK(e, i, 0, v->data[i], ldexp((double)want->v[i], e * deg), 0.0, 0.0, what);
+  for(int i = 0; i < n; i++) CHK(e, i, 0, v->data[i], scd((double)want->v[i], e, deg), 0.0, 0.0, what);
 }
 
 static int drift = 0;
+/* ---- K3 (location): every column moved by an offset of about 2^19 units, alternating in sign, so that |mean| / spread is 1e5 .. 5e5 while
+   every value stays inside 1e-6 .. 1e6 (e <= 0 only: at the top scale the offset would leave the quantifier).  Exact in double (integers
+   below 2^20 times the unit).  Besides the comparison made here, the largest relative residual of the shifted statistic goes to TLC as a
+   Loc line: TraceKernels.tla holds the tolerance as a function of rows, offset and spread. ---- */
+#define LOC_OFF 524288L
+static long loc_off(int j){ long o = LOC_OFF - 4096L * (j % 8); return (j % 2) ? -o : o; }
+static int loc_ok(int e){ return e <= 0 && e != MIX && e != DEC; }
+static double loc_worst = 0.0;
+static void loc_note(double got, double want, double floor_){
+  double sc_ = fabs(want) > floor_ ? fabs(want) : floor_, rr = vfinite(got) ? fabs(got - want) / sc_ : 1e300;
+  if(rr > loc_worst) loc_worst = rr;
+}
+static long max_abs_mant(arr *a){ long m = 1; for(int i = 0; i < a->len; i++){ long x = a->v[i] < 0 ? -a->v[i] : a->v[i]; if(x > m) m = x; } return m; }
+static void emit_loc(const char *fn, kcase *q, int e, int n, long sp){
+  VRT_EMIT("{\"e\":\"Loc\",\"fn\":\"%s\",\"sd\":%d,\"exp\":%d,\"r\":%d,\"k\":%d,\"c\":%d,\"n\":%d,\"off\":%ld,\"sp\":%ld,\"res\":%ld}", fn, q->sd, e, q->r, q->k, q->c, n, LOC_OFF, sp, vq12(loc_worst));
+}
+/* kernels run in the DEC pass (sums of products and averages: their tolerance is a plain function of the number of terms) */
+static int dec_fn(const char *fn){
+  static const char *L[] = { "MatrixDotProduct", "MatrixDVectorDotProduct", "MT_MatrixDVectorDotProduct", "DVectorMatrixDotProduct", "MT_DVectorMatrixDotProduct",
+    "RowColOuterProduct", "DVectorTrasposedDVectorDotProduct", "MatrixTranspose", "MatrixTrace", "DVectorDVectorDotProd", "TransposedTensorDVectorProduct",
+    "DvectorTensorDotProduct", "TensorMatrixDotProduct", "MatrixColAverage", "MatrixRowAverage", "DVectorMean", NULL };
+  for(int i = 0; L[i]; i++) if(!strcmp(L[i], fn)) return 1;
+  return 0;
+}
 
 /* ==== second batch ==================================================================================================== */
 static tensor *tensor_of(arr *a, int k, int r, int c, int e){
@@ -227,6 +259,7 @@ static int run_two(const char *fn, kcase *q, int e){
   }
   else if(!strcmp(fn, "Matrix2SQRTMatrix")){
     if(e == MIX) return 1;
+    e = e - (e % 2);                                                      /* an even exponent: sqrt(x * 4^(e/2)) = sqrt(x) * 2^(e/2) exactly */
     need(&q->out[8], r * c);
     matrix *m = mat_of(&q->out[0], r, c, 2 * e), *o; initMatrix(&o);      /* perfect squares: the square root is exact */
     Matrix2SQRTMatrix(m, o);
@@ -335,6 +368,22 @@ static int run_two(const char *fn, kcase *q, int e){
         else descstat_cmp(ds, r, c, e, &q->out[7], &q->out[8], NULL, &q->out[9], &q->out[10], &q->out[11], &q->out[12]);
       }
       stale_pass = 0;
+      if(which == 1 && loc_ok(e) && r >= 2 && c >= 1){          /* K3 */
+        for(int i = 0; i < r; i++) for(int j = 0; j < c; j++) m->data[i][j] += ldexp((double)loc_off(j), e);
+        MatrixColDescStat(m, ds);
+        loc_worst = 0.0;
+        if(shape_is(ds, c, 13, e)) for(int j = 0; j < c; j++){
+          double n = (double)r, vn = ldexp((double)q->out[9].v[j], 2 * e), fl = ldexp(1.0, 2 * e), *g = ds->data[j];
+          CHK(e, j, 3, g[3], vn / (n * n), 1e-8, fl, "population variance unchanged by a column location shift of 2^19 units");
+          CHK(e, j, 4, g[4], vn / (n * (n - 1.0)), 1e-8, fl, "sample variance unchanged by a column location shift of 2^19 units");
+          CHK(e, j, 6, g[6] * g[6], vn / (n * (n - 1.0)), 1e-8, fl, "sample sdev^2 unchanged by a column location shift of 2^19 units");
+          CHK(e, j, 0, g[0], ldexp((double)q->out[7].v[j], e) / n + ldexp((double)loc_off(j), e), 4 * EPS, 0.0, "average moves with the column");
+          CHK(e, j, 9, g[9], ldexp((double)(q->out[10].v[j] + loc_off(j)), e), 0.0, 0.0, "minimum moves with the column");
+          CHK(e, j, 10, g[10], ldexp((double)(q->out[11].v[j] + loc_off(j)), e), 0.0, 0.0, "maximum moves with the column");
+          loc_note(g[3], vn / (n * n), fl); loc_note(g[4], vn / (n * (n - 1.0)), fl);
+        }
+        emit_loc(fn, q, e, r, max_abs_mant(&q->in[1]));
+      }
       DelMatrix(&m); DelMatrix(&ds);
     }
   }
@@ -413,7 +462,7 @@ static int run_two(const char *fn, kcase *q, int e){
     need(&q->out[0], r);
     int sub = e == MIX ? 2 : 1;
     for(int u = 0; u < sub; u++){
-      int ex = e == MIX ? (u ? -20 : 20) : e, em = e == MIX ? -ex : 0;     /* x in unit 2^ex, M in unit 2^em, v = x M in unit 2^(ex+em) */
+      int ex = e == MIX ? (u ? -10 : 10) : e, em = e == MIX ? -ex : 0;     /* x in unit 2^ex, M in unit 2^em, v = x M in unit 2^(ex+em) */
       double xmax = 1.0;
       for(int i = 0; i < r; i++) if(fabs((double)q->out[0].v[i]) > xmax) xmax = fabs((double)q->out[0].v[i]);
       for(int pass = 0; pass < 2; pass++){
@@ -444,7 +493,7 @@ static int run_two(const char *fn, kcase *q, int e){
   }
   else if(!strcmp(fn, "KronekerProductVectorMatrix")){
     need(&q->out[6], k * r * c);
-    int ev = e == MIX ? 20 : e, em = e == MIX ? -20 : e;
+    int ev = e == MIX ? 17 : e, em = e == MIX ? -19 : e;
     dvector *v = vec_of(&q->in[2], r, ev); matrix *m = mat_of(&q->in[3], c, k, em);
     tensor *t; NewTensor(&t, k);
     for(int s = 0; s < k; s++) NewTensorMatrix(t, s, r, c);
@@ -471,6 +520,19 @@ static int run_two(const char *fn, kcase *q, int e){
         CHK(e, j, s, g * g, ldexp((double)q->out[5].v[j * k + s], 2 * e) / ((double)r * (double)(r - 1)), 1e-12, ldexp(1.0, 2 * e), "o[j][s]^2 = sample variance of column j of slice s");
       }
     }
+    if(sdv && loc_ok(e) && r >= 2 && c >= 1 && k >= 1){        /* K3: every column of every slice moved by its offset */
+      for(int s = 0; s < k; s++) for(int i = 0; i < r; i++) for(int j = 0; j < c; j++) t->m[s]->data[i][j] += ldexp((double)loc_off(j + s), e);
+      matrix *o2; initMatrix(&o2);
+      TensorColSDEV(t, o2);
+      loc_worst = 0.0;
+      if(shape_is(o2, c, k, e)) for(int j = 0; j < c; j++) for(int s = 0; s < k; s++){
+        double want = ldexp((double)q->out[5].v[j * k + s], 2 * e) / ((double)r * (double)(r - 1)), g = o2->data[j][s];
+        CHK(e, j, s, g * g, want, 1e-8, ldexp(1.0, 2 * e), "o[j][s]^2 unchanged by a column location shift of 2^19 units");
+        loc_note(g * g, want, ldexp(1.0, 2 * e));
+      }
+      emit_loc(fn, q, e, r, max_abs_mant(&q->in[0]));
+      DelMatrix(&o2);
+    }
     DelTensor(&t); DelMatrix(&o);
   }
   else return 0;
@@ -482,11 +544,15 @@ static int run_two(const char *fn, kcase *q, int e){
 static const int MTN[3] = { 2, 3, 5 };
 static void run_one(const char *fn, kcase *q, int e){
   int r = q->r, k = q->k, c = q->c;
+  if(e == DEC && !dec_fn(fn)) return;
   if(run_two(fn, q, e)) return;
   if(e == MIX) return;
+  /* DEC pass: operands are mantissa * DECU (rounded), sums of `terms` products of size <= 25 DECU^2 (or entries <= 5 DECU) */
+  #define DEC_TOL(terms, mag) (dec_abs = ((terms) + 4.0) * EPS * ((terms) > 1 ? (terms) : 1) * (mag))
   if(!strcmp(fn, "MatrixDotProduct")){
     matrix *a = mat_of(&q->in[0], r, k, e), *b = mat_of(&q->in[1], k, c, e), *p; NewMatrix(&p, r, c);
     MatrixDotProduct(a, b, p);
+    DEC_TOL(k, 25.0 * DECU * DECU);
     cmp_mat(p, &q->out[0], r, c, e, 2, "c[i][j] = sum_k a[i][k] b[k][j]");
     DelMatrix(&a); DelMatrix(&b); DelMatrix(&p);
   }
@@ -496,6 +562,7 @@ static void run_one(const char *fn, kcase *q, int e){
       matrix *m = mat_of(&q->in[0], r, c, e); dvector *v = vec_of(&q->in[1], c, e), *p; NewDVector(&p, r);
       if(mt){ vrt_force_nproc(MTN[t]); MT_MatrixDVectorDotProduct(m, v, p); vrt_force_nproc(1); }
       else MatrixDVectorDotProduct(m, v, p);
+      DEC_TOL(c, 25.0 * DECU * DECU);
       cmp_vec(p, &q->out[0], r, e, 2, "p[i] = sum_j m[i][j] v[j]");
       DelMatrix(&m); DelDVector(&v); DelDVector(&p);
     }
@@ -506,6 +573,7 @@ static void run_one(const char *fn, kcase *q, int e){
       matrix *m = mat_of(&q->in[0], r, c, e); dvector *v = vec_of(&q->in[1], r, e), *p; NewDVector(&p, c);
       if(mt){ vrt_force_nproc(MTN[t]); MT_DVectorMatrixDotProduct(m, v, p); vrt_force_nproc(1); }
       else DVectorMatrixDotProduct(m, v, p);
+      DEC_TOL(r, 25.0 * DECU * DECU);
       cmp_vec(p, &q->out[0], c, e, 2, "p[j] = sum_i v[i] m[i][j]");
       DelMatrix(&m); DelDVector(&v); DelDVector(&p);
     }
@@ -513,12 +581,14 @@ static void run_one(const char *fn, kcase *q, int e){
   else if(!strcmp(fn, "RowColOuterProduct") || !strcmp(fn, "DVectorTrasposedDVectorDotProduct")){
     dvector *a = vec_of(&q->in[0], r, e), *b = vec_of(&q->in[1], c, e); matrix *m; NewMatrix(&m, r, c);
     if(fn[0] == 'R') RowColOuterProduct(a, b, m); else DVectorTrasposedDVectorDotProduct(a, b, m);
+    DEC_TOL(1, 25.0 * DECU * DECU);
     cmp_mat(m, &q->out[0], r, c, e, 2, "m[i][j] = a[i] b[j]");
     DelDVector(&a); DelDVector(&b); DelMatrix(&m);
   }
   else if(!strcmp(fn, "MatrixTranspose")){
     matrix *m = mat_of(&q->in[0], r, c, e), *t; NewMatrix(&t, c, r);
     MatrixTranspose(m, t);
+    dec_abs = 0.0;                          /* a copy: exact in every unit */
     cmp_mat(t, &q->out[0], c, r, e, 1, "t[j][i] = m[i][j]");
     DelMatrix(&m); DelMatrix(&t);
   }
@@ -526,22 +596,29 @@ static void run_one(const char *fn, kcase *q, int e){
     matrix *m = mat_of(&q->in[0], r, c, e);
     double tr = MatrixTrace(m);
     need(&q->out[0], 1);
-    if(r == c) CHK(e, 0, 0, tr, ldexp((double)q->out[0].v[0], e), 0.0, 0.0, "trace = sum_i m[i][i]");
+    DEC_TOL(r, 5.0 * DECU);
+    if(r == c) CHK(e, 0, 0, tr, scd((double)q->out[0].v[0], e, 1), 0.0, 0.0, "trace = sum_i m[i][i]");
     else if(tr != 0.0) drift = 1;          /* trace of a non-square matrix is not defined: only memory safety is judged */
     DelMatrix(&m);
   }
   else if(!strcmp(fn, "Matrixnorm")){
     matrix *m = mat_of(&q->in[0], r, c, e);
     double nr = Matrixnorm(m);
-    need(&q->out[0], 1);
+    if(q->out[0].len < 1){ fprintf(stderr, "Norm case without expected list\n"); exit(2); }
     if(!(nr >= 0.0)) miss(e, 0, 0, nr, sqrt(ldexp((double)q->out[0].v[0], 2 * e)), "norm >= 0");
     CHK(e, 0, 0, nr * nr, ldexp((double)q->out[0].v[0], 2 * e), 4 * EPS, 0.0, "norm^2 = sum of squares");
+    if(loc_ok(e) && q->out[0].len >= 2 && r * c <= 64){   /* K3: |M + off|^2 = sumsq + 2 off total + r c off^2 (exact integers below 2^53) */
+      double off = (double)loc_off(0), ss = (double)q->out[0].v[0] + 2.0 * off * (double)q->out[0].v[1] + (double)r * (double)c * off * off;
+      for(int i = 0; i < r; i++) for(int j = 0; j < c; j++) m->data[i][j] += ldexp(off, e);
+      nr = Matrixnorm(m);
+      CHK(e, 0, 0, nr * nr, ldexp(ss, 2 * e), (r * c + 8) * EPS, 0.0, "norm^2 of a matrix moved by 2^19 units = sumsq + 2 off total + r c off^2");
+    }
     DelMatrix(&m);
   }
   else if(!strcmp(fn, "MatrixNorm")){
     matrix *m = mat_of(&q->in[0], r, c, e), *nm; NewMatrix(&nm, r, c);
     MatrixNorm(m, nm);
-    need(&q->out[0], 1);
+    if(q->out[0].len < 1){ fprintf(stderr, "Norm case without expected list\n"); exit(2); }
     double n2 = (double)q->out[0].v[0];
     if(n2 > 0) for(int i = 0; i < r; i++) for(int j = 0; j < c; j++){
       double x = (double)q->in[0].v[i * c + j], g = nm->data[i][j];
@@ -556,7 +633,13 @@ static void run_one(const char *fn, kcase *q, int e){
     need(&q->out[0], c);
     if(r >= 1){
       if((int)v->size != c) miss(e, (int)v->size, 0, (double)v->size, (double)c, "result size");
-      else for(int j = 0; j < c; j++) CHK(e, 0, j, v->data[j], ldexp((double)q->out[0].v[j], e) / (double)r, 4 * EPS, 0.0, "column average = column sum / rows");
+      else { DEC_TOL(r, 5.0 * DECU / (r > 0 ? r : 1)); for(int j = 0; j < c; j++) CHK(e, 0, j, v->data[j], scd((double)q->out[0].v[j], e, 1) / (double)r, 4 * EPS, 0.0, "column average = column sum / rows"); }
+    }
+    if(loc_ok(e) && r >= 1){                 /* K3: the average moves with the column */
+      DelDVector(&v); initDVector(&v);
+      for(int i = 0; i < r; i++) for(int j = 0; j < c; j++) m->data[i][j] += ldexp((double)loc_off(j), e);
+      MatrixColAverage(m, v);
+      if((int)v->size == c) for(int j = 0; j < c; j++) CHK(e, 0, j, v->data[j], ldexp((double)q->out[0].v[j], e) / (double)r + ldexp((double)loc_off(j), e), 4 * EPS, 0.0, "column average moves with a column location shift of 2^19 units");
     }
     DelMatrix(&m); DelDVector(&v);
   }
@@ -566,7 +649,13 @@ static void run_one(const char *fn, kcase *q, int e){
     need(&q->out[1], r);
     if(c >= 1){
       if((int)v->size != r) miss(e, (int)v->size, 0, (double)v->size, (double)r, "result size");
-      else for(int i = 0; i < r; i++) CHK(e, i, 0, v->data[i], ldexp((double)q->out[1].v[i], e) / (double)c, 4 * EPS, 0.0, "row average = row sum / columns");
+      else { DEC_TOL(c, 5.0 * DECU / (c > 0 ? c : 1)); for(int i = 0; i < r; i++) CHK(e, i, 0, v->data[i], scd((double)q->out[1].v[i], e, 1) / (double)c, 4 * EPS, 0.0, "row average = row sum / columns"); }
+    }
+    if(loc_ok(e) && c >= 1){                 /* K3: the average moves with the row */
+      DelDVector(&v); initDVector(&v);
+      for(int i = 0; i < r; i++) for(int j = 0; j < c; j++) m->data[i][j] += ldexp((double)loc_off(i), e);
+      MatrixRowAverage(m, v);
+      if((int)v->size == r) for(int i = 0; i < r; i++) CHK(e, i, 0, v->data[i], ldexp((double)q->out[1].v[i], e) / (double)c + ldexp((double)loc_off(i), e), 4 * EPS, 0.0, "row average moves with a row location shift of 2^19 units");
     }
     DelMatrix(&m); DelDVector(&v);
   }
@@ -586,15 +675,20 @@ static void run_one(const char *fn, kcase *q, int e){
       DelMatrix(&m); DelDVector(&v);
       /* the same columns moved to a location about 1e6 spreads away (exact in double: integer multiples of 2^e): variance and
          sdev are translation invariant (LawCovariance / ShiftCols in Kernels.tla) */
-      m = mat_of(&q->in[0], r, c, e); initDVector(&v);
-      for(int i = 0; i < r; i++) for(int j = 0; j < c; j++) m->data[i][j] += ldexp((double)(1048576L * (j + 1) * ((j % 2) ? -1 : 1)), e);
-      if(sd) MatrixColSDEV(m, v); else MatrixColVar(m, v);
-      if((int)v->size == c) for(int j = 0; j < c; j++){
-        double want = ldexp((double)q->out[3].v[j], 2 * e) / den, g = v->data[j];
-        if(sd) g = g * g;
-        CHK(e, 0, j, g, want, 1e-8, ldexp(1.0, 2 * e), sd ? "sdev^2 unchanged by a column location shift of 2^20 units" : "variance unchanged by a column location shift of 2^20 units");
+      if(loc_ok(e)){
+        m = mat_of(&q->in[0], r, c, e); initDVector(&v);
+        for(int i = 0; i < r; i++) for(int j = 0; j < c; j++) m->data[i][j] += ldexp((double)loc_off(j), e);
+        if(sd) MatrixColSDEV(m, v); else MatrixColVar(m, v);
+        loc_worst = 0.0;
+        if((int)v->size == c) for(int j = 0; j < c; j++){
+          double want = ldexp((double)q->out[3].v[j], 2 * e) / den, g = v->data[j];
+          if(sd) g = g * g;
+          CHK(e, 0, j, g, want, 1e-8, ldexp(1.0, 2 * e), sd ? "sdev^2 unchanged by a column location shift of 2^19 units" : "variance unchanged by a column location shift of 2^19 units");
+          loc_note(g, want, ldexp(1.0, 2 * e));
+        }
+        if(c >= 1) emit_loc(fn, q, e, r, max_abs_mant(&q->in[0]));
+        DelMatrix(&m); DelDVector(&v);
       }
-      DelMatrix(&m); DelDVector(&v);
     }
   }
   else if(!strcmp(fn, "MatrixColRMS")){
@@ -607,6 +701,16 @@ static void run_one(const char *fn, kcase *q, int e){
         double g = v->data[j];
         if(!(g >= 0.0)) miss(e, 0, j, g, 0.0, "rms >= 0");
         CHK(e, 0, j, g * g, ldexp((double)q->out[2].v[j], 2 * e) / (double)r, 16 * EPS, 0.0, "rms^2 = column sum of squares / rows");
+      }
+      if(loc_ok(e)){                         /* K3: rms^2 of the moved column = (sumsq + 2 off sum + n off^2) / n, an exact integer identity (ColSums, ColSumSqs of Kernels.tla) */
+        need(&q->out[0], c);
+        DelDVector(&v); initDVector(&v);
+        for(int i = 0; i < r; i++) for(int j = 0; j < c; j++) m->data[i][j] += ldexp((double)loc_off(j), e);
+        MatrixColRMS(m, v);
+        if((int)v->size == c) for(int j = 0; j < c; j++){
+          double off = (double)loc_off(j), ss = (double)q->out[2].v[j] + 2.0 * off * (double)q->out[0].v[j] + (double)r * off * off, g = v->data[j];
+          CHK(e, 0, j, g * g, ldexp(ss, 2 * e) / (double)r, 16 * EPS, 0.0, "rms^2 of a column moved by 2^19 units = (sumsq + 2 off sum + n off^2) / n");
+        }
       }
       DelMatrix(&m); DelDVector(&v);
     }
@@ -622,18 +726,26 @@ static void run_one(const char *fn, kcase *q, int e){
         CHK(e, i, j, cm->data[i][j], ldexp((double)q->out[0].v[i * c + j], 2 * e) / den, 1e-12, ldexp(1.0, 2 * e), "cov[i][j] = (n*sum x_i x_j - sum x_i * sum x_j)/(n(n-1))");
       DelMatrix(&m); DelMatrix(&cm);
       /* translation invariance at a location about 1e6 spreads away (ShiftCols law) */
-      m = mat_of(&q->in[0], r, c, e); initMatrix(&cm);
-      for(int i = 0; i < r; i++) for(int j = 0; j < c; j++) m->data[i][j] += ldexp((double)(1048576L * (j + 1) * ((j % 2) ? -1 : 1)), e);
-      MatrixCovariance(m, cm);
-      if((int)cm->row == c && (int)cm->col == c) for(int i = 0; i < c; i++) for(int j = 0; j < c; j++)
-        CHK(e, i, j, cm->data[i][j], ldexp((double)q->out[0].v[i * c + j], 2 * e) / den, 1e-8, ldexp(1.0, 2 * e), "covariance unchanged by a column location shift of 2^20 units");
-      DelMatrix(&m); DelMatrix(&cm);
+      if(loc_ok(e)){
+        m = mat_of(&q->in[0], r, c, e); initMatrix(&cm);
+        for(int i = 0; i < r; i++) for(int j = 0; j < c; j++) m->data[i][j] += ldexp((double)loc_off(j), e);
+        MatrixCovariance(m, cm);
+        loc_worst = 0.0;
+        if((int)cm->row == c && (int)cm->col == c) for(int i = 0; i < c; i++) for(int j = 0; j < c; j++){
+          CHK(e, i, j, cm->data[i][j], ldexp((double)q->out[0].v[i * c + j], 2 * e) / den, 1e-8, ldexp(1.0, 2 * e), "covariance unchanged by a column location shift of 2^19 units");
+          loc_note(cm->data[i][j], ldexp((double)q->out[0].v[i * c + j], 2 * e) / den, ldexp(1.0, 2 * e));
+          if(cm->data[i][j] != cm->data[j][i]) miss(e, i, j, cm->data[i][j], cm->data[j][i], "covariance symmetric");
+        }
+        if(c >= 1) emit_loc(fn, q, e, r, max_abs_mant(&q->in[0]));
+        DelMatrix(&m); DelMatrix(&cm);
+      }
     }
   }
   else if(!strcmp(fn, "DVectorDVectorDotProd")){
     dvector *a = vec_of(&q->in[0], r, e), *b = vec_of(&q->in[1], r, e);
     need(&q->out[0], 4);
-    CHK(e, 0, 0, DVectorDVectorDotProd(a, b), ldexp((double)q->out[0].v[0], 2 * e), 0.0, 0.0, "dot = sum_i a[i] b[i]");
+    DEC_TOL(r, 25.0 * DECU * DECU);
+    CHK(e, 0, 0, DVectorDVectorDotProd(a, b), scd((double)q->out[0].v[0], e, 2), 0.0, 0.0, "dot = sum_i a[i] b[i]");
     DelDVector(&a); DelDVector(&b);
   }
   else if(!strcmp(fn, "DvectorModule")){
@@ -647,7 +759,13 @@ static void run_one(const char *fn, kcase *q, int e){
     if(r >= 1){
       dvector *a = vec_of(&q->in[0], r, e); double g;
       DVectorMean(a, &g);
-      CHK(e, 0, 0, g, ldexp((double)q->out[0].v[2], e) / (double)r, 4 * EPS, 0.0, "mean = sum / n");
+      DEC_TOL(r, 5.0 * DECU / r);
+      CHK(e, 0, 0, g, scd((double)q->out[0].v[2], e, 1) / (double)r, 4 * EPS, 0.0, "mean = sum / n");
+      if(loc_ok(e)){                         /* K3: the mean moves with the vector */
+        for(int i = 0; i < r; i++) a->data[i] += ldexp((double)loc_off(0), e);
+        DVectorMean(a, &g);
+        CHK(e, 0, 0, g, ldexp((double)q->out[0].v[2], e) / (double)r + ldexp((double)loc_off(0), e), 4 * EPS, 0.0, "mean moves with a location shift of 2^19 units");
+      }
       DelDVector(&a);
     }
   }
@@ -657,6 +775,13 @@ static void run_one(const char *fn, kcase *q, int e){
       DVectorSDEV(a, &g);
       if(!(g >= 0.0)) miss(e, 0, 0, g, 0.0, "sdev >= 0");
       CHK(e, 0, 0, g * g, ldexp((double)q->out[0].v[3], 2 * e) / ((double)r * (double)r), 1e-12, ldexp(1.0, 2 * e), "population sdev^2 = (n*sumsq - sum^2)/n^2");
+      if(loc_ok(e) && r >= 2){                /* K3: the same vector about 1e5 spreads away from the origin */
+        for(int i = 0; i < r; i++) a->data[i] += ldexp((double)loc_off(1), e);
+        DVectorSDEV(a, &g);
+        double want = ldexp((double)q->out[0].v[3], 2 * e) / ((double)r * (double)r);
+        CHK(e, 0, 0, g * g, want, 1e-8, ldexp(1.0, 2 * e), "population sdev^2 unchanged by a location shift of 2^19 units");
+        loc_worst = 0.0; loc_note(g * g, want, ldexp(1.0, 2 * e)); emit_loc(fn, q, e, r, max_abs_mant(&q->in[0]));
+      }
       DelDVector(&a);
     }
   }
@@ -665,8 +790,9 @@ static void run_one(const char *fn, kcase *q, int e){
     if(q->in[0].len != k * r * c){ fprintf(stderr, "tensor operand size\n"); exit(2); }
     for(int s = 0; s < k; s++){
       NewTensorMatrix(t, s, r, c);
-      for(int i = 0; i < r; i++) for(int j = 0; j < c; j++) t->m[s]->data[i][j] = ldexp((double)q->in[0].v[(s * r + i) * c + j], e);
+      for(int i = 0; i < r; i++) for(int j = 0; j < c; j++) t->m[s]->data[i][j] = sc((double)q->in[0].v[(s * r + i) * c + j], e);
     }
+    DEC_TOL((fn[0] == 'D' ? r : (fn[1] == 'r' ? c : c * k)), 25.0 * DECU * DECU);
     if(fn[0] == 'T' && fn[1] == 'r'){
       dvector *v = vec_of(&q->in[1], c, e); matrix *p; NewMatrix(&p, k, r);
       TransposedTensorDVectorProduct(t, v, p);
@@ -770,6 +896,7 @@ int main(int argc, char **argv){
       if(issort) VRT_EMIT("{\"e\":\"Reset\"}");
       for(int x = 0; x < 3; x++){ cur_exp = EXPS[x]; run_one(fn, &q, EXPS[x]); }
       if(batch2){ cur_exp = MIX; run_one(fn, &q, MIX); }
+      if(dec_fn(fn)){ static const double U[3] = { 0.1, 1.0 / 3.0, 1e-3 }; DECU = U[(q.r + q.k + q.c + q.sd) % 3]; cur_exp = DEC; dec_abs = 0.0; run_one(fn, &q, DEC); }
       cur = NULL;
       if(!issort){
         if(mm.bad)
